@@ -181,6 +181,8 @@ class AirTouchSocket(Generic[comms.Hdr]):
             for task in list(self._background_tasks):
                 if task is not current_task:
                     task.cancel()
+            # Messages that were never sent must not leak into a later session.
+            self._message_queue.clear()
             await self._disconnect()
 
     async def send(self, message: comms.Message, retry_policy: RetryPolicy) -> None:
